@@ -2,6 +2,8 @@ import ScrapliModel.Lemmas.Auth
 import ScrapliModel.AuthTable
 import ScrapliModel.Generated.Consts
 import ScrapliModel.Generated.SshErrors
+import ScrapliModel.Generated.Patterns
+import ScrapliModel.Regex
 /-!
 # C10 — In-channel login succeeds iff the device admits us; attempts are bounded
 
@@ -334,6 +336,59 @@ theorem table_mono (rx : String → Bytes → Bool) (b : Bytes)
     simp only [hr] at h ⊢
     unfold rowErrs at h ⊢
     cases hm : r.appendRx <;> simp_all
+
+/-! ## the prompt spellings the property names are accepted by the extracted patterns -/
+
+/-- obligations on the regenerated regex terms (kernel evaluation of the regex engine): the
+spellings of the login prompts the property lists match their own pattern — also behind a banner
+and with a trailing blank — and a banner line that merely contains `login:` / `password:` mid-line,
+or another prompt, does not -/
+theorem spellings_accepted :
+    -- username 'Username:'
+    Rx.isMatch Gen.Rx.Channel.«username» [85,115,101,114,110,97,109,101,58] = true ∧
+    -- username 'Username: '
+    Rx.isMatch Gen.Rx.Channel.«username» [85,115,101,114,110,97,109,101,58,32] = true ∧
+    -- username 'login:'
+    Rx.isMatch Gen.Rx.Channel.«username» [108,111,103,105,110,58] = true ∧
+    -- username 'login: '
+    Rx.isMatch Gen.Rx.Channel.«username» [108,111,103,105,110,58,32] = true ∧
+    -- username 'Welcome\nrouter login: '
+    Rx.isMatch Gen.Rx.Channel.«username» [87,101,108,99,111,109,101,10,114,111,117,116,101,114,32,108,111,103,105,110,58,32] = true ∧
+    -- password 'Password:'
+    Rx.isMatch Gen.Rx.Channel.«password» [80,97,115,115,119,111,114,100,58] = true ∧
+    -- password 'Password: '
+    Rx.isMatch Gen.Rx.Channel.«password» [80,97,115,115,119,111,114,100,58,32] = true ∧
+    -- password "admin@host's password:"
+    Rx.isMatch Gen.Rx.Channel.«password» [97,100,109,105,110,64,104,111,115,116,39,115,32,112,97,115,115,119,111,114,100,58] = true ∧
+    -- password "admin@host's password: "
+    Rx.isMatch Gen.Rx.Channel.«password» [97,100,109,105,110,64,104,111,115,116,39,115,32,112,97,115,115,119,111,114,100,58,32] = true ∧
+    -- password 'motd\nPassword: '
+    Rx.isMatch Gen.Rx.Channel.«password» [109,111,116,100,10,80,97,115,115,119,111,114,100,58,32] = true ∧
+    -- passphrase "Enter passphrase for key '/x':"
+    Rx.isMatch Gen.Rx.Channel.«passphrase» [69,110,116,101,114,32,112,97,115,115,112,104,114,97,115,101,32,102,111,114,32,107,101,121,32,39,47,120,39,58] = true ∧
+    -- passphrase "Enter passphrase for key '/home/u/.ssh/id_ed25519': "
+    Rx.isMatch Gen.Rx.Channel.«passphrase» [69,110,116,101,114,32,112,97,115,115,112,104,114,97,115,101,32,102,111,114,32,107,101,121,32,39,47,104,111,109,101,47,117,47,46,115,115,104,47,105,100,95,101,100,50,53,53,49,57,39,58,32] = true ∧
+    -- promptPattern 'router#'
+    Rx.isMatch Gen.Rx.Channel.«promptPattern» [114,111,117,116,101,114,35] = true ∧
+    -- promptPattern 'banner line\nr1> '
+    Rx.isMatch Gen.Rx.Channel.«promptPattern» [98,97,110,110,101,114,32,108,105,110,101,10,114,49,62,32] = true ∧
+    -- promptPattern 'user@box:/$'
+    Rx.isMatch Gen.Rx.Channel.«promptPattern» [117,115,101,114,64,98,111,120,58,47,36] = true ∧
+    -- username 'Last login: Tue Sep 30 from 10.0.0.1\n'
+    Rx.isMatch Gen.Rx.Channel.«username» [76,97,115,116,32,108,111,103,105,110,58,32,84,117,101,32,83,101,112,32,51,48,32,102,114,111,109,32,49,48,46,48,46,48,46,49,10] = false ∧
+    -- username 'Password: '
+    Rx.isMatch Gen.Rx.Channel.«username» [80,97,115,115,119,111,114,100,58,32] = false ∧
+    -- password '*** password: will expire ***\n'
+    Rx.isMatch Gen.Rx.Channel.«password» [42,42,42,32,112,97,115,115,119,111,114,100,58,32,119,105,108,108,32,101,120,112,105,114,101,32,42,42,42,10] = false ∧
+    -- password 'login: '
+    Rx.isMatch Gen.Rx.Channel.«password» [108,111,103,105,110,58,32] = false ∧
+    -- promptPattern 'Welcome to the lab\n'
+    Rx.isMatch Gen.Rx.Channel.«promptPattern» [87,101,108,99,111,109,101,32,116,111,32,116,104,101,32,108,97,98,10] = false ∧
+    -- promptPattern 'Password: '
+    Rx.isMatch Gen.Rx.Channel.«promptPattern» [80,97,115,115,119,111,114,100,58,32] = false ∧
+    -- promptPattern 'login:'
+    Rx.isMatch Gen.Rx.Channel.«promptPattern» [108,111,103,105,110,58] = false := by
+  decide +kernel
 
 /-! ## the hypotheses are satisfiable: concrete dialogues with toy matchers -/
 
